@@ -37,7 +37,7 @@ def run(chk):
     chk.nontrivial += len({l for l in open(tr)})
     chk.sample(json.loads(open(tr).readline()))
     chk.rule = ("TLC enumerates every text over 8 symbols (a, b, space, newline, a width-2 char, a zero-width char, two SGR escapes) "
-                "up to length 5 (quick) / 7 (thorough) x widths {1..5, unlimited}; each (text, width) is rendered through the real "
+                "up to length 5 (quick) / 6 (thorough) x widths {1..5, unlimited}; each (text, width) is rendered through the real "
                 "textwrap::wrap ({author}) and StyledStr::wrap ({about}); random texts <= 120/200 symbols x widths 1..60 are recorded "
                 "and validated by Trace_C20.tla. Non-trivial = distinct texts.")
     chk.exhaustive = True
